@@ -56,9 +56,10 @@ def showStack (s : List Val) : String :=
 def parseArgs (s : String) : Option (List (List Nat)) :=
   if s = "-" then none else some ((s.splitOn ",").map hexBytes)
 
+/-- the optional 10th field (transaction environment) only matters to ops outside the modelled family -/
 def handle (line : String) : String :=
   let body := (line.splitOn "#").head!
-  match fields body with
+  match (fields body).take 9 with
   | [kind, mode, bk, maxcost, pool, lsv, minv, hex, args] =>
     let m := if mode = "sig" then modeSig else modeApp
     let prog := hexBytes hex
